@@ -66,9 +66,18 @@ def inv_map(inv):
             for _, ie in inv.iter_entries()}
 
 
+def tree_map(tree):
+    """Like inv_map, read through the tree API (a working tree's exec bit lives on disk)."""
+    out = {}
+    for p, ie in tree.iter_entries_by_dir():
+        k = tree.kind(p) if p else "directory"
+        out[ie.file_id] = (ie.parent_id, ie.name, k, bool(tree.is_executable(p)) if k == "file" else False)
+    return out
+
+
 def apply_as_delta(source, target, rows):
     """Apply change rows as an inventory delta to a copy of source's inventory."""
-    from bzrformats.inventory import mutable_inventory_from_tree
+    from bzrformats.inventory import InventoryDirectory, InventoryFile, mutable_inventory_from_tree
     from bzrformats.inventory_delta import InventoryDelta
     inv = mutable_inventory_from_tree(source)
     tinv = target.root_inventory
@@ -76,10 +85,19 @@ def apply_as_delta(source, target, rows):
     seen = set()
     for r in rows:
         fid, (op, np_), versioned = r[0], r[1], r[3]
-        if versioned == (False, False) or fid in seen:
+        if versioned == (False, False) or fid in seen or not _is_change(r):
             continue
         seen.add(fid)
-        ne = tinv.get_entry(fid).copy() if np_ is not None and versioned[1] else None
+        ne = None
+        if np_ is not None and versioned[1]:
+            te = tinv.get_entry(fid)
+            kind = target.kind(np_) if np_ else "directory"
+            if kind == "file":
+                ne = InventoryFile(fid, te.name, te.parent_id, executable=bool(target.is_executable(np_)))
+            elif kind == "directory":
+                ne = InventoryDirectory(fid, te.name, te.parent_id)
+            else:
+                ne = te.copy()
         delta.append((op, np_ if ne is not None else None, fid, ne))
     inv.apply_delta(InventoryDelta(delta))
     return inv
@@ -99,7 +117,7 @@ def check_pair_bzr(acc, setting, source, target, s, t, label, maxk, expect_cls):
     gen = InterInventoryTree(source, target)
     present = set(s) | set(t) if s is not None else set(label["paths"])
     cand = set(present) | {"u", "zz"}
-    tmap = inv_map(target.root_inventory)
+    tmap = tree_map(target)
     full = None
     nontrivial = False
     for fl in filters(cand, maxk):
@@ -118,25 +136,32 @@ def check_pair_bzr(acc, setting, source, target, s, t, label, maxk, expect_cls):
             diff = compare_rows(a, b, fl)
             if diff:
                 aspect, only_a, only_b = diff
-                tp.viol(acc, "%s:optimised!=generic:%s:%s" % (setting, "filtered" if fl else "unfiltered", aspect),
+                tp.viol(acc, "%s:optimised!=generic:%s" % (setting, aspect),
                         dict(desc, only_optimised=only_a, only_generic=only_b))
-                continue
             acc.outcomes.add(hash(repr([x[1:4] + x[5:] for x in a])))
-            if len({x[0] for x in a if x[0] is not None}) != len([x for x in a if x[0] is not None]):
-                tp.viol(acc, "%s:duplicate-rows" % setting, dict(desc, rows=a))
-                continue
-            # delta laws
-            try:
-                inv = apply_as_delta(source, target, a)
-            except Exception as e:  # noqa
-                tp.viol(acc, "%s:delta-does-not-apply:%s:%s" % (setting, "filtered" if fl else "unfiltered",
-                                                                 type(e).__name__),
-                              dict(desc, rows=a, error=str(e)[:300]))
+            # delta laws, for each implementation's own output
+            inv = None
+            for impl, rows in (("optimised", a), ("generic", b)):
+                if impl == "generic" and not diff:
+                    break
+                try:
+                    inv = apply_as_delta(source, target, rows)
+                except Exception as e:  # noqa
+                    reason = delta_reason(e)
+                    if reason == "path-already-versioned" and fl:
+                        acc.count("filtered_delta_path_collisions")   # not a missing parent: outside the statement
+                    else:
+                        tp.viol(acc, "%s:%s:delta-does-not-apply:%s:%s" % (
+                            setting, impl, "filtered" if fl else "unfiltered", reason),
+                            dict(desc, rows=rows, error=str(e)[:300]))
+                    inv = None
+                    continue
+                if fl is None and inv_map(inv) != tmap:
+                    tp.viol(acc, "%s:%s:unfiltered-delta!=target" % (setting, impl),
+                            dict(desc, rows=rows, got_inventory=inv_map(inv), target_inventory=tmap))
+            if diff:
                 continue
             if fl is None:
-                if inv_map(inv) != tmap:
-                    tp.viol(acc, "%s:unfiltered-delta!=target" % setting,
-                                  dict(desc, rows=a, got_inventory=inv_map(inv), target_inventory=tmap))
                 if not flags["include_unchanged"] and not flags["want_unversioned"]:
                     full = a
             elif full is not None and fl:
@@ -159,35 +184,77 @@ def check_pair_bzr(acc, setting, source, target, s, t, label, maxk, expect_cls):
         acc.nt((setting, repr(sorted(label.items(), key=repr))))
 
 
+def delta_reason(e):
+    msg = str(e)
+    if "reason:" in msg:
+        msg = msg.split("reason:", 1)[1]
+    msg = msg.strip().lower()
+    for key, name in (("already versioned", "path-already-versioned"), ("parent", "parent-problem"),
+                      ("not a directory", "parent-not-directory"), ("children", "orphaned-children"),
+                      ("repeated", "repeated-entry"), ("mismatched", "mismatched-entry"),
+                      ("not present", "entry-not-present")):
+        if key in msg:
+            return name
+    return type(e).__name__
+
+
+FIELDS = ("file_id", "path", "changed_content", "versioned", "parent_id", "name", "kind", "executable", "copied")
+
+
 def compare_rows(a, b, fl):
     """None when the two row lists agree on everything the statement covers, else
-    (aspect, rows only in a, rows only in b).  Changed rows: equal as multisets.  Unversioned
-    rows: equal as sets.  Unchanged rows: equal for paths at or under the filter (whether
-    unchanged PARENTS of filtered paths are listed is left open by the docstring)."""
-    def split(rows):
-        ch, unv, same = [], [], []
+    (classification, rows only in optimised, rows only in generic).  Changed rows: equal as
+    multisets.  Unversioned rows: equal as sets.  Unchanged rows: equal for paths at or under the
+    filter (whether unchanged PARENTS of filtered paths are listed is left open by the
+    docstring).  The classification names the side and the abstract kind of the first
+    differing row, so that distinct discrepancies get distinct signatures."""
+    wanted = {x[0] for x in a + b if fl is None or under(fl, x[1][1]) or under(fl, x[1][0])}
+
+    def want(x):
+        return x[3] == (False, False) or _is_change(x) or x[0] in wanted
+    a = [x for x in a if want(x)]
+    b = [x for x in b if want(x)]
+    if a == b:
+        return None
+    oa = [x for x in a if x not in b]
+    ob = [x for x in b if x not in a]
+    if not oa and not ob:
+        dup = sorted((x for x in set(a) if a.count(x) != b.count(x)), key=repr)
+        side = "optimised" if a.count(dup[0]) > b.count(dup[0]) else "generic"
+        return "%s-repeats-row:%s" % (side, rowclass(dup[0])), [x for x in dup if a.count(x) > 1], \
+            [x for x in dup if b.count(x) > 1]
+    both = sorted(set(a) & set(b), key=repr)
+    cls = []
+    for side, rows, other in (("optimised", oa, ob), ("generic", ob, oa)):
         for x in rows:
-            if x[3] == (False, False):
-                unv.append(x)
-            elif _is_change(x):
-                ch.append(x)
-            elif fl is None or under(fl, x[1][1]) or under(fl, x[1][0]):
-                same.append(x)
-        return ch, unv, same
-    ca, ua, sa = split(a)
-    cb, ub, sb = split(b)
-    if ca != cb:
-        oa = [x for x in ca if x not in cb]
-        ob = [x for x in cb if x not in ca]
-        if not oa and not ob:
-            dup = [x for x in set(ca) if ca.count(x) != cb.count(x)]
-            return "duplicate-change-rows", [x for x in dup if ca.count(x) > 1], [x for x in dup if cb.count(x) > 1]
-        return "change-rows", oa, ob
-    if sorted(set(ua), key=repr) != sorted(set(ub), key=repr):
-        return "unversioned-rows", [x for x in ua if x not in ub], [x for x in ub if x not in ua]
-    if sa != sb:
-        return "unchanged-rows", [x for x in sa if x not in sb], [x for x in sb if x not in sa]
-    return None
+            twin = [y for y in other if y[0] == x[0] and y[0] is not None]
+            if twin:
+                if side == "optimised":
+                    fields = [FIELDS[i] for i in range(9) if x[i] != twin[0][i]]
+                    cls.append("row-differs:%s:%s" % (rowclass(x), "+".join(fields)))
+                continue
+            c = rowclass(x)
+            if c == "unversioned":
+                if fl and not under(fl, x[1][1]):
+                    c += "-outside-filter-paths"
+                elif fl:
+                    c += "-at-filter-path"
+            elif c == "change":
+                if any(y[1][1] is not None and y[1][1] == x[1][0] for y in both + rows + other if y is not x):
+                    c = "entry-displaced-from-a-reported-target-path"
+                elif x[6][1] == "directory" and any(
+                        p is not None and p.startswith((x[1][1] or "\0") + "/")
+                        for y in both for p in y[1]) or (fl and x[6][1] == "directory" and any(
+                            f.startswith((x[1][1] or "\0") + "/") or f.startswith((x[1][0] or "\0") + "/") for f in fl)):
+                    c = "changed-parent-directory"
+            cls.append("%s-only:%s" % (side, c))
+    return sorted(cls)[0], oa, ob
+
+
+def rowclass(x):
+    if x[3] == (False, False):
+        return "unversioned"
+    return "change" if _is_change(x) else "unchanged"
 
 
 def _b(v):
